@@ -142,29 +142,18 @@ fn pass0_internal(
                     }
                     context.macro_depth.set(context.macro_depth.get() + 1);
                     let segments = macro_expand(line, macro_name, ops, context, macroses)?;
-                    if !segments.is_empty() {
-                        let current_segment = context.last_segment().unwrap().borrow().clone();
-                        if segments[0].address != current_segment.address
-                            || segments[0].t != current_segment.t
-                        {
+                    // first segment continues segment of the caller
+                    pass0_internal(segments[0].clone(), context, macroses)?;
+                    for segment in segments.iter().skip(1) {
+                        if segment.t == SegmentType::Code {
                             context.add_segment(Segment {
-                                address: segments[0].address,
-                                t: segments[0].t,
+                                address: segment.address,
+                                t: segment.t,
                                 items: vec![],
                             });
-                        }
-                        pass0_internal(segments[0].clone(), context, macroses)?;
-                        for segment in segments.iter().skip(1) {
-                            if segment.t == SegmentType::Code {
-                                context.add_segment(Segment {
-                                    address: segment.address,
-                                    t: segment.t,
-                                    items: vec![],
-                                });
-                                pass0_internal(segment.clone(), context, macroses)?;
-                            } else {
-                                context.add_segment(segment.clone());
-                            }
+                            pass0_internal(segment.clone(), context, macroses)?;
+                        } else {
+                            context.add_segment(segment.clone());
                         }
                     }
                     context.macro_depth.set(context.macro_depth.get() - 1);
@@ -189,8 +178,10 @@ fn macro_expand(
     context: &Pass0Context,
     macroses: &HashMap<String, Vec<(CodePoint, String)>>,
 ) -> Result<Vec<Segment>, Error> {
+    // Body continues segment of the caller: placeholder keeps this segment in use,
+    // so `.org` or switch of segment at start of the body opens new segment
     let segments = Rc::new(RefCell::new(vec![Rc::new(RefCell::new(Segment {
-        items: vec![],
+        items: vec![(line.clone(), Item::Label(String::new()))],
         t: SegmentType::Code,
         address: context.last_segment().unwrap().borrow().address,
     }))]));
@@ -232,14 +223,17 @@ fn macro_expand(
         bail!("call undefined macro {} on {}", macro_name, line);
     }
 
-    // Empty segments are dropped, except the last one: it keeps the segment
+    segments.borrow()[0].borrow_mut().items.remove(0);
+
+    // Empty segments are dropped, except the first one (continuation of segment
+    // of the caller) and the last one: it keeps the segment or the origin
     // the body has switched to, so the caller continues there
     let count = segments.borrow().len();
     let segments = segments
         .borrow()
         .iter()
         .enumerate()
-        .filter(|(i, x)| !x.borrow().is_empty() || (*i > 0 && *i == count - 1))
+        .filter(|(i, x)| !x.borrow().is_empty() || *i == 0 || *i == count - 1)
         .map(|(_, x)| x.borrow().clone())
         .collect();
 
